@@ -450,4 +450,12 @@ class RSNorm(AgentWrapper):
                 *experiences[4:],
             )
 
+        # The n-step batch of the n-step learners is observed through the same normalisation
+        n_experiences = kwargs.get("n_experiences")
+        if n_experiences is not None and is_tensor_collection(n_experiences):
+            n_experiences["obs"] = self.normalize_observation(n_experiences["obs"])
+            n_experiences["next_obs"] = self.normalize_observation(
+                n_experiences["next_obs"]
+            )
+
         return self.agent_learn(experiences, *args, **kwargs)
